@@ -10,7 +10,13 @@ pub mod c02;
 pub mod c03;
 pub mod c04;
 pub mod c05;
+pub mod c07;
+pub mod c10;
+pub mod c11;
 pub mod c12;
+pub mod c13;
+pub mod c14;
+pub mod c15;
 pub mod c17;
 pub mod facts;
 
@@ -74,7 +80,13 @@ pub fn check(prop: &str, cx: &Cx, rep: &mut Report) {
         "C03" => c03::check(cx, rep),
         "C04" => c04::check(cx, rep),
         "C05" => c05::check(cx, rep),
+        "C07" => c07::check(cx, rep),
+        "C10" => c10::check(cx, rep),
+        "C11" => c11::check(cx, rep),
         "C12" => c12::check(cx, rep),
+        "C13" => c13::check(cx, rep),
+        "C14" => c14::check(cx, rep),
+        "C15" => c15::check(cx, rep),
         "C17" => c17::check(cx, rep),
         _ => panic!("no oracle for {prop}"),
     }
